@@ -46,6 +46,23 @@ theorem substituent_order (g : Graph) (hw : WellFormed g) (es : List (Event × N
   · subst h2
     exact ⟨_, by rw [List.getElem?_map, hd]; rfl, Or.inr ⟨pre, back, post, h1, h3, h4, rfl⟩⟩
 
+/-- THE FIRST SENTENCE OF THE PROPERTY, ABOUT THE WRITTEN TEXT ITSELF (no builder in the statement): what the written
+    text DENOTES — `Spec.denote`, the bond lists read off the text in written order: preceding atom, then ring-closure
+    digits, branches and chain successor as they appear (C02) — is, at every atom, the original bond list in the original
+    order, renumbered by visit position, with only the arrival bond moved to the front.  So in the written output each
+    atom's substituents appear in exactly the order of its bond list, ring digits and branches interleaved as listed. -/
+theorem written_order (g : Graph) (hw : WellFormed g) (es : List (Event × Nat)) (ord : List Nat)
+    (h : walkRecL g = some (es, ord)) (hne : es ≠ []) :
+    ∃ t, write? (es.map (·.1)) = some t ∧ (read t).2 = .ok ∧
+      ∀ x atomX, g[x]? = some atomX → ∃ atom', (Spec.denote (read t).1)[pos ord x]? = some atom' ∧
+        (atom'.bonds = atomX.bonds.map (fun b => ⟨b.kind, pos ord b.tid⟩) ∨
+         ∃ pre back post, atomX.bonds = pre ++ back :: post ∧ (∀ o ∈ pre, o.tid ≠ back.tid) ∧
+           (∀ o ∈ post, o.tid ≠ back.tid) ∧
+           atom'.bonds = (back :: (pre ++ post)).map (fun b => ⟨b.kind, pos ord b.tid⟩)) := by
+  obtain ⟨t, g', h1, h2, h3, h4⟩ := substituent_order g hw es ord h hne
+  have hd : g' = Spec.denote (read t).1 := build_eq_denote _ g' h3
+  exact ⟨t, h1, h2, by rw [← hd]; exact h4⟩
+
 /-- STAGE 2 (subsumed by stage 3): the forest case -/
 theorem substituent_order_forest (g : Graph) (hw : WellFormed g) (es : List (Event × Nat)) (ord : List Nat)
     (h : walkRecL g = some (es, ord)) (_hj : ∀ e ∈ es, isJoin e = false) (hne : es ≠ []) :
